@@ -264,6 +264,33 @@ func driveAppendSample(s *shardSet, rng *rand.Rand, thorough bool) ([]string, ma
 			}
 		}
 	}
+	// a buffer that was moved by a growing Append whose total length ends inside a frame, then single-sample
+	// appends far beyond its capacity: the capacity it got must never change again
+	for i, ty := range types {
+		for ch := 2; ch <= 4; ch++ {
+			if !thorough && (i+ch)%3 != 0 {
+				continue
+			}
+			w := s.Next()
+			w.Reset()
+			dst := w.filledRoot(ty, ch, 1+rng.Intn(2))
+			w.AppendSample(dst, w.NextStamp()) // full: no-op
+			w.Alloc(ty, ch, 1, 2)
+			src := len(w.Views) - 1
+			w.Write(src, KindOf(ty), w.stamps(ch))
+			for k := 0; k < 1+rng.Intn(ch-1); k++ {
+				w.AppendSample(src, w.NextStamp())
+			}
+			w.Append(dst, src) // grows; total length not a whole number of frames
+			for k := 0; k < 3*ch+2; k++ {
+				w.AppendSample(dst, w.NextStamp())
+			}
+			w.Append(dst, src) // and once more from a full buffer
+			for k := 0; k < ch+1; k++ {
+				w.AppendSample(dst, w.NextStamp())
+			}
+		}
+	}
 	driveBigAppend(s, rng, thorough)
 	return types, nil
 }
